@@ -35,10 +35,17 @@ and icon images the library supplies itself, captured as the bytes the library r
     the bytes it was created from, and in the saved zip the a:blip r:embed of that shape resolves (own rels reader)
     to a part with those bytes.
 
+Bounds: quick = E2 space above + BFS depth 3 over all 13 operations; thorough = E2 with more sizes, dpi requests,
+misleading names and size arguments (see _space/_wh_list) + BFS depth 3 over all 13 operations + BFS depth 4 over a
+10-operation sub-alphabet (SUB).
+
 Deviations from DESIGN 4/C15: the file-name alphabet adds 'upper-case' and an open file object; the E1 alphabet adds
 the default poster/icon variants and 'I' (re-adding an image that was only ever LOADED, which exercises the SHA1
-lookup over loaded parts without an explicit save/re-open). The thorough tier adds sizes/dpi values/misleading names
-(see _space). The icon of an OLE object is not reachable through the public API, so it is checked in the zip only.
+lookup over loaded parts without an explicit save/re-open), 13 operations instead of ~10, so depth 4 is run over
+the 10-operation sub-alphabet only. The icon of an OLE object is not reachable through the public API, so it is
+checked in the zip only. add_picture(width=0 / height=0) is outside the enumerated space. The type rule is also
+applied to the images the library supplies itself (default poster, default OLE icon), whose real format is
+taken from their magic number.
 """
 
 from __future__ import annotations
@@ -156,15 +163,32 @@ def _wh_list(thorough):
     return out
 
 
+_SCRATCH = None
+
+
+def _scratch():
+    """Scratch directory below the PARENT process's fixtures.tmpdir() (set before forking, removed by the parent at
+    exit; pool workers never run atexit handlers, so they must not create their own)."""
+    global _SCRATCH
+    if _SCRATCH is None:
+        _SCRATCH = F.tmpdir()
+    d = os.path.join(_SCRATCH, "c15-%d" % os.getpid())
+    os.makedirs(d, exist_ok=True)
+    return d
+
+
+def _write_file(name, blob):
+    p = os.path.join(_scratch(), name)
+    with open(p, "wb") as f:
+        f.write(blob)
+    return p
+
+
 def _source(case, blob):
     """Returns (src, closer)."""
     if case["how"] == "stream":
         return io.BytesIO(blob), None
-    d = os.path.join(F.tmpdir(), "c15")
-    p = os.path.join(d, case["fname"])
-    os.makedirs(d, exist_ok=True)
-    with open(p, "wb") as f:
-        f.write(blob)
+    p = _write_file(case["fname"], blob)
     if case["how"] == "fileobj":
         fo = open(p, "rb")
         return fo, fo
@@ -458,13 +482,6 @@ class Live:
         self.reopens = 0
 
 
-def _read_src(src):
-    if isinstance(src, str):
-        with open(src, "rb") as f:
-            return f.read()
-    return src.getvalue()
-
-
 def _img_src(live, name, via):
     """(src, bytes, label, fmt)"""
     if name == "I":
@@ -475,7 +492,7 @@ def _img_src(live, name, via):
         return io.BytesIO(b), b, "I", None
     fmt, b = img(name)
     if via == "path":
-        return F.image_file(os.path.join("c15e1", IMG_FILE[name]), b), b, name, fmt
+        return _write_file(IMG_FILE[name], b), b, name, fmt
     return io.BytesIO(b), b, name, fmt
 
 
@@ -490,10 +507,6 @@ def _record(live, label, b, fmt):
     known = sha in live.added or any(_sha(x) == sha for _, x in init_images(live.init))
     live.added.setdefault(sha, (label, b, fmt))
     return "model:reuse" if known else "model:new-part"
-
-
-class _Spy(io.BytesIO):
-    pass
 
 
 def op_add_picture(live, op):
@@ -520,11 +533,6 @@ def op_insert_picture(live, op):
                 live.shapes.append((si, pp.shape_id, "ph", _sha(b)))
                 return lab
     return SKIP
-
-
-def _default_poster():
-    """Bytes of the poster image the library supplies when none is given (discovered behaviourally in _selfcheck)."""
-    return _LIB["poster"]
 
 
 def op_add_movie(live, op):
@@ -804,6 +812,7 @@ def _determinism_probe():
 
 def run(ctx):
     thorough = ctx.thorough
+    _scratch()  # fix the scratch root in the parent before any fork
     ctx.extra["dpi_reader_selfcheck_cases"] = _selfcheck_readers()
     _discover_library_images()
     _determinism_probe()
@@ -834,6 +843,7 @@ def run(ctx):
 
 
 def replay(data):
+    _scratch()
     if data.get("kind") == "e2":
         part = Partial()
         case = {k: data[k] for k in ("kind", "fmt", "size", "dpi", "name", "fname", "how")}
